@@ -125,4 +125,45 @@ theorem mergeLibs_le (cfg : Cfg) : ∀ (s d r : List Lib), mergeLibs cfg d s = .
       · exact h4 x hx
     · cases h
 
+
+theorem mergeDesc_le (cfg : Cfg) (d s r : Desc) (b : Bool) (h : mergeDesc cfg d s b = .ok r) :
+    LibsLe d.libs r.libs ∧ LibsLe s.libs r.libs := by
+  unfold mergeDesc at h
+  split at h
+  · cases h
+  · rename_i libs hl
+    cases h
+    exact mergeLibs_le cfg s.libs d.libs libs hl
+
+/-- a history of runs in the same directory: each run merges its description into what the registry holds -/
+def mergeHistory (cfg : Cfg) : Desc → List Desc → E Desc
+  | d, [] => .ok d
+  | d, s :: r =>
+    match mergeDesc cfg d s true with
+    | .ok d' => mergeHistory cfg d' r
+    | .error e => .error e
+
+theorem mergeHistory_le (cfg : Cfg) : ∀ (hist : List Desc) (d r : Desc), mergeHistory cfg d hist = .ok r →
+    LibsLe d.libs r.libs ∧ ∀ s ∈ hist, LibsLe s.libs r.libs := by
+  intro hist
+  induction hist with
+  | nil =>
+    intro d r h
+    simp only [mergeHistory] at h
+    cases h
+    exact ⟨LibsLe.refl _, fun _ hx => by cases hx⟩
+  | cons s hist ih =>
+    intro d r h
+    unfold mergeHistory at h
+    split at h
+    · rename_i d' hd'
+      obtain ⟨h1, h2⟩ := mergeDesc_le cfg d s d' true hd'
+      obtain ⟨h3, h4⟩ := ih d' r h
+      refine ⟨h1.trans h3, ?_⟩
+      intro x hx
+      rcases List.mem_cons.mp hx with rfl | hx
+      · exact h2.trans h3
+      · exact h4 x hx
+    · cases h
+
 end TfelVerif.C47
